@@ -251,7 +251,14 @@ def _network_source(ss: FuncModel):
         for t_ in texts:
             pc = ss.pc(ss.cfgn(t_))
             key0 = objs[0][1]
-            guarded = any(a_[0] == "b" and (a_[1].startswith("none:") or f"'{key0}'" in a_[1]) for a_ in logic.atoms(pc))
+            cands_ = [a_ for a_ in logic.atoms(pc) if a_[0] == "b" and (a_[1].startswith("none:") or f"'{key0}'" in a_[1])]
+            # ... and in that direction: the parser runs where the object is known to be missing (`is None`, `not in state`),
+            # not where it is known to be present
+            try:
+                guarded = any(logic.implies(pc, ("atom", a_)) if a_[1].startswith("none:") else
+                              logic.implies(pc, logic.Not(("atom", a_))) if a_[1].startswith("in:") else False for a_ in cands_)
+            except logic.TooBig:
+                guarded = False
             if not guarded or not logic.satisfiable(pc):
                 return None
         return objs[0]
